@@ -716,6 +716,13 @@ func (s *Sim) perm(n int) []int {
 // pick chooses the next task and its step budget.
 func (s *Sim) pick() (*Task, int64) {
 	run := s.runnables()
+	if s.explicit && len(run) == 0 {
+		// a recorded clock advance / collection may be what makes a task runnable
+		segs := s.spec.Trace.Segs
+		if s.segLeft <= 0 && s.segIdx < len(segs) && segs[s.segIdx][0] < 0 {
+			return s.pickExplicit(run)
+		}
+	}
 	if len(run) == 0 {
 		return nil, 0
 	}
@@ -823,9 +830,11 @@ func (s *Sim) pickExplicit(run []*Task) (*Task, int64) {
 			continue
 		}
 		if segs[s.segIdx][0] < 0 {
-			// pseudo segment: the simulated clock advances (a timer fires / a sleeper wakes)
+			// pseudo segment: the simulated clock advances (a timer fires / a sleeper wakes);
+			// timers that are due fire at once, as they did in the recorded run
 			s.advanceClock(segs[s.segIdx][1])
 			s.segIdx++
+			s.fireDueTimers()
 			run = s.runnables()
 			if len(run) == 0 {
 				return nil, 0
@@ -836,6 +845,9 @@ func (s *Sim) pickExplicit(run []*Task) (*Task, int64) {
 		s.segIdx++
 	}
 	// trace exhausted: fair round-robin, run to completion
+	if len(run) == 0 {
+		return nil, 0
+	}
 	return s.pickRR(run, 64)
 }
 
@@ -1065,6 +1077,14 @@ func (s *Sim) advanceToNextWake() bool {
 	d := w - s.Now()
 	if d <= 0 {
 		return true
+	}
+	if s.explicit {
+		// the recorded run made the same rule-based advance at this point and
+		// wrote it into the trace: consume that entry instead of advancing twice
+		segs := s.spec.Trace.Segs
+		if s.segLeft <= 0 && s.segIdx < len(segs) && segs[s.segIdx][0] == -1 {
+			s.segIdx++
+		}
 	}
 	s.advanceClock(d)
 	return true
